@@ -9,7 +9,9 @@ package proxy
 // (recording) connections and exposes the unexported entry points a monitor needs.
 
 import (
+	"context"
 	"errors"
+	"fmt"
 	"net"
 
 	"go.minekube.com/gate/pkg/edition/java/netmc"
@@ -143,6 +145,33 @@ func (f *VerifC24Fixture) BackendJoinGame(i int, jg *packet.JoinGame) error {
 		return err
 	}
 	f.player.setConnectedServer(f.conns[i])
+	return nil
+}
+
+// TransitionJoinGame feeds a JoinGame to a new backendTransitionSessionHandler of
+// connection i, exactly what the backend's read loop does when the JoinGame of a server the
+// player is being connected to arrives: the handler drops (and clears) the current server,
+// runs clientPlaySessionHandler.handleBackendJoinGame, installs the backend play handler
+// and records connection i as the connected server.
+func (f *VerifC24Fixture) TransitionJoinGame(i int, jg *packet.JoinGame) error {
+	sc := f.conns[i]
+	resp := make(chan *connResponse, 1)
+	h := newBackendTransitionSessionHandler(sc, &connRequestCxt{Context: context.Background(), response: resp}, f.px)
+	h.HandlePacket(&proto.PacketContext{Direction: proto.ClientBound, Protocol: f.player.Protocol(), Packet: jg})
+	select {
+	case r := <-resp:
+		if r.error != nil {
+			return r.error
+		}
+		if r.connectionResult == nil || r.connectionResult.status != SuccessConnectionStatus {
+			return fmt.Errorf("join did not succeed: %+v", r.connectionResult)
+		}
+	default:
+		return errors.New("the transition handler produced no result")
+	}
+	if f.player.connectedServer() != sc {
+		return errors.New("the joined connection is not the connected server")
+	}
 	return nil
 }
 
